@@ -183,7 +183,7 @@ func powStream(emit func(Case, string)) {
 // that held the jet of an earlier computation over the same variables; after
 // Reset / SetFloat64 every derivative getter is 0.
 
-var staleSites = []string{"Reset", "SetFloat64", "SetFloat64;Mul", "Reset;Add", "Abs0", "Abs0(concrete)", "Vmean", "VdotV", "Vnorm", "Mtrace", "SmoothMax", "LogSmoothMax"}
+var staleSites = []string{"SetVariable", "Reset", "SetFloat64", "SetFloat64;Mul", "Reset;Add", "Abs0", "Abs0(concrete)", "Vmean", "VdotV", "Vnorm", "Mtrace", "SmoothMax", "LogSmoothMax"}
 
 func staleRun(site string, kind, order, n int, dirty bool) (res adScalar, pk int) {
 	regs := map[int]adScalar{}
@@ -215,6 +215,10 @@ func staleRun(site string, kind, order, n int, dirty bool) (res adScalar, pk int
 	}
 	var prog []Instr
 	switch site {
+	case "SetVariable":
+		// re-activation of a scalar that holds the jet of an earlier computation over the same variables:
+		// x_1 again, with gradient e_1 and a zero Hessian (HEAD 8241a1e)
+		prog = []Instr{{Op: "SetVariable", C: idC, I: 1, N: n, Ord: order}}
 	case "Reset":
 		prog = []Instr{{Op: "Reset", C: idC}}
 	case "SetFloat64":
@@ -256,7 +260,7 @@ func staleCheck(site string, kind, order, n int) string {
 		return ""
 	}
 	same := func(a, b float64) bool { return feq(a, b) || a == b }
-	if !same(fresh.GetFloat64(), used.GetFloat64()) {
+	if site != "SetVariable" && !same(fresh.GetFloat64(), used.GetFloat64()) { // SetVariable keeps the value it finds
 		return fmt.Sprintf("value %v on a fresh receiver, %v on a reused one", fresh.GetFloat64(), used.GetFloat64())
 	}
 	zero := site == "Reset" || site == "SetFloat64" || site == "Abs0" || site == "Abs0(concrete)"
